@@ -68,6 +68,9 @@ def run(chk: Check) -> None:
             files[k] = texts[text_index % len(texts)].replace("{PKG}", cm["pkg"]).replace("{ALT}", cm["alt"])
         if "requirements.txt" in files and "-r base.txt" in files["requirements.txt"]:
             files["base.txt"] = "six\n"
+        if "," in cm["id"] and "requirements.txt" in files:
+            # a second name of the same manifest inside the project: still one manifest, the package is declared once
+            files["docs/requirements.txt"] = {"symlink": "../requirements.txt"}
         argv = ["{dir}", "--output", "{out}", "--codemod-include", cm["id"]]
         cand = sorted(exp["cand"])
         scenarios.append({
